@@ -8,8 +8,9 @@
   visits every connection of the pool and may CLEAR flags (`lower`, arbitrary) — it never sets one.
   That a connection's flag is written by nothing else is tied to the source by the extracted
   writer table (`Gen.verifiedWriters`, `C03_only_setter_table`): the only assignments to an
-  attribute `is_encrypted` in pyhap are `False` in `__init__`, `True` in `_pair_verify_two` (own
-  handler) and `False` in `_close_unpaired_sessions` (other handlers).
+  attribute `is_encrypted` in pyhap are `False` in the handler's constructor, `True` in code reached
+  only from the `/pair-verify` route (own handler) and `False` in the protocol's session teardown
+  (other handlers).
 -/
 import HapModel.Dispatch
 namespace Hap.Http
